@@ -2,6 +2,7 @@
 from __future__ import annotations
 
 import os
+import re
 import pathlib
 
 from vf.harness import cliworld as cw
@@ -161,6 +162,8 @@ def apply_op(sim, mon, op, ctx=None):
             for c in w.ArchiveFileCopy.select().join(w.ArchiveFile).join(w.ArchiveAcq).where(w.ArchiveAcq.name == acq_, w.ArchiveFile.name == name_):
                 if "--no-reverify" in args or c.wants_file == "N":
                     pre_taint.add((c.node.name, args[0]))
+        # "{root:NAME}" in an argument stands for the current root of node NAME
+        args = [re.sub(r"\{root:(\w+)\}", lambda m_: str(w.StorageNode.get(name=m_.group(1)).root), a) if isinstance(a, str) else a for a in args]
         code, out, exc = cw.invoke(cmd, list(args), input_="y\n")
         if code == 0:
             sim.tainted |= pre_taint
